@@ -142,6 +142,15 @@ CHECKS = {
              "TLC recomputes every gap curve from the recorded game and actions (row 0 = minimal information, row t+1 after the t-th recorded coalition, distinct explorable ids, early stop only "
              "when done), demands pairwise distinct games on continuous generators and bit-identical matrices and games for every process count.",
         note="schedules of the real pool are not controllable; independence is judged as 'no two repetitions see the same continuous-valued game'"),
+    "C14": dict(
+        level="model_checking", design="§5 C14", technique="TLC on MC_Regret with exact rationals (all iteration histories, n=3; table-domain and ranking invariants n=4) + trace validation of real GameRegretMinimizer runs, with refinement against the exact model for n=3 (Trace_Regret)",
+        text="TLC explores every history of up to 2-3 iterations with terminal values {0,1,2} on every leaf for n=3 and every limit 1..5 (plain and plus) in exact rational arithmetic and checks: "
+             "every id the constructor writes lies inside the allocated table, the ranking is a bijection ordered by size, current and average strategies are distributions supported on "
+             "unrevealed coalitions, the added regret is orthogonal to the strategy played, plus keeps regret non-negative; construction/ranking invariants for n=4 and every limit. "
+             "Real minimisers are constructed for n=3 (limits 1..5), n=4 (limits 1,2,5,9,10,12 quick / 1..12 thorough), n=5 (limits 1..3, thorough), iterated with non-negative terminal values, "
+             "and observed through regret_matching_strategy / get_average_strategy / cumulative_regret at sampled nodes after each iteration, plus save->load->continue; TLC checks the "
+             "property clauses on the logged values and, for n=3, agreement with the exact rational model.",
+        note="float32 state compared on a 2^-10 grid; the model's pre-repair modes (unclipped limit, table sized by count) are kept as self-tests TLC must find violating"),
 }
 
 NOT_YET = "check not built yet (build in progress; see DESIGN.md §5 for the plan)"
